@@ -25,6 +25,9 @@ def domain(tier):
     d += [["word", 8, "bool"], ["word", 160, "address"], ["word", 32, "selector"], ["word", 192, "function"]]
     # widths that are not whole bytes (what an unaligned mask produces), beyond the quantifier's list
     d += [["word", 1, "bytes"], ["word", 7, "bytes"], ["word", 12, "numeric"]]
+    # fixed-width usages whose width is not (yet) known: no inference rule emits them, but they are constructible
+    # evidence (TE::word(None, WordUse::Address)) and the statement does not exclude them
+    d += [["word", None, "address"], ["word", None, "bool"], ["word", None, "selector"], ["word", None, "function"]]
     if tier == "thorough":
         d += [["word", 250, "bytes"], ["word", 255, "unsigned"], ["word", 9, "signed"]]
     d += [["map", 0, 1], ["map", 2, 3], ["dyn", 0], ["dyn", 1]]
@@ -241,7 +244,33 @@ def replay(path):
     case = json.load(open(path))["case"]
     d = common.Driver("rel", shim=False)
     els = [case[k] for k in ("a", "b", "c") if k in case]
-    r = d.call({"op": "merge_batch", "nvars": NVARS, "pairs": [[els[0], els[1]]] + ([[els[1], els[2]]] if len(els) == 3 else [[els[1], els[0]]])})
+
+    def one(x, y):
+        return merge_all(d, [(x, y)])[(key(x), key(y))]
+    bad = None
+    if len(els) == 2:
+        r1, r2 = one(els[0], els[1]), one(els[1], els[0])
+        if "panic" in r1 or "panic" in r2:
+            bad = "merge:panic"
+        elif normalise(r1["expr"], [r1]) != normalise(r2["expr"], [r2]):
+            bad = "merge:asymmetric"
+        print(json.dumps([r1, r2])[:1200])
+    else:
+        a, b, c = els
+        ab, bc = one(a, b), one(b, c)
+        if "panic" in ab or "panic" in bc:
+            bad = "merge:panic"
+        else:
+            l2, r2 = one(ab["expr"], c), one(a, bc["expr"])
+            if "panic" in l2 or "panic" in r2:
+                bad = "merge:panic"
+            else:
+                left, right = normalise(l2["expr"], [ab, l2]), normalise(r2["expr"], [bc, r2])
+                print("(a+b)+c =", left, "\na+(b+c) =", right)
+                if left != right:
+                    known = json.load(open(DATA)) if os.path.exists(DATA) else {}
+                    bad = "merge:nonassoc (listed)" if known.get(key([a, b, c])) == [left, right] else "merge:nonassoc-unlisted"
     d.stop()
-    print(json.dumps(r)[:1500])
-    return 1
+    if bad:
+        print("VIOLATION-REPLAY", bad)
+    return 1 if bad and "(listed)" not in bad else 0
